@@ -580,6 +580,10 @@ class Packetizer:
         if self.__compress_engine_in is not None:
             payload = self.__compress_engine_in(payload)
 
+        if len(payload) == 0:
+            # no message type byte: padding length >= packet length, or
+            # nothing left after decompression
+            raise SSHException("Invalid packet: no payload")
         msg = Message(payload[1:])
         msg.seqno = self.__sequence_number_in
         next_seq = (self.__sequence_number_in + 1) & xffffffff
